@@ -253,7 +253,12 @@ class Gen:
         self.live = {}       # path -> live object
 
     def reg_entity(self, obj, kind):
-        e = {"path": path_of(obj), "kind": kind, "type": obj.type, "name": obj.name, "id": obj.id, "date": 1}
+        date = 1
+        if self.rng.random() < 0.12:
+            # a creation time of exactly 1970-01-01T00:00:00 is a date like any other (it is SET)
+            obj.force_created_at(0)
+            date = 0
+        e = {"path": path_of(obj), "kind": kind, "type": obj.type, "name": obj.name, "id": obj.id, "date": date}
         self.model["entities"].append(e)
         self.live[e["path"]] = obj
         return e
